@@ -250,7 +250,7 @@ class HistogramBase(abc.ABC):
     def _get_axis(self, name_or_index: Axis) -> int:
         """Get a zero-based index of an axis and check its existence."""
         # TODO: Add unit test
-        if isinstance(name_or_index, int):
+        if isinstance(name_or_index, (int, np.integer)):
             if name_or_index < 0 or name_or_index >= self.ndim:
                 raise ValueError(
                     f"No axis {name_or_index}, must be from 0 to {self.ndim - 1}"
